@@ -11,5 +11,10 @@ for cfg in ('default', 'nodefault', 'rand'):
     for f in j['fns']:
         if f['label'] == 'fn' and f['kind'] != 'Closure':
             out[f['path']] = {'path': f['path'], 'sig': f.get('sig'), 'impl_self': f.get('impl_self'), 'impl_trait': f.get('impl_trait'), 'kind': f['kind']}
-json.dump(sorted(out.values(), key=lambda x: x['path']), open(os.path.join(os.path.dirname(os.path.dirname(os.path.abspath(__file__))), 'baseline_fns.json'), 'w'), indent=0)
+adts = set()
+for cfg in ('default', 'nodefault', 'rand'):
+    path, _ = build.facts_path(cfg)
+    for a in json.load(open(path))['adts']:
+        adts.add(a['path'])
+json.dump({'fns': sorted(out.values(), key=lambda x: x['path']), 'adts': sorted(adts)}, open(os.path.join(os.path.dirname(os.path.dirname(os.path.abspath(__file__))), 'baseline_fns.json'), 'w'), indent=0)
 print(len(out), 'functions')
